@@ -230,6 +230,9 @@ func report(eng *Engine, prop, tier string, seed int, verif string, results []*f
 		"violation_list":           violations,
 		"integers":                 "mathematical Int (no overflow obligations); see assumptions",
 	}
+	if prop == "C13" && eng.commuteVerdicts != nil {
+		cov["map_range_loops"] = eng.commuteVerdicts
+	}
 	if nObl == 0 {
 		cov["obligations"] = 0
 		ev["level"] = "other"
